@@ -12,6 +12,22 @@ func (t *Dense) T(axes ...int) (err error) {
 		return handleNoOp(err)
 	}
 
+	// a pending transpose that permutes nothing (SafeT with axes that transpose nothing marks its copy that way) needs
+	// no carrying out and is not undone by the new one either: drop it
+	if !t.old.IsZero() && len(t.transposeWith) == t.old.Dims() && t.old.Shape().Eq(t.Shape()) {
+		if monotonic, incr1 := IsMonotonicInts(t.transposeWith); (monotonic && incr1 && t.transposeWith[0] == 0) || t.Shape().IsScalarEquiv() {
+			same := true
+			for i, s := range t.old.strides {
+				if i >= len(t.AP.strides) || t.AP.strides[i] != s {
+					same = false
+				}
+			}
+			if same {
+				t.UT()
+			}
+		}
+	}
+
 	// is there any old transposes that need to be done first?
 	// this is important, because any old transposes for dim >=3 are merely permutations of the strides
 	if !t.old.IsZero() {
